@@ -15,6 +15,51 @@ import tlaval
 import vf
 
 
+def own_headers(ctx, drv):
+    """the instant a request's fingerprint is taken at lies after the arrival of its own HEADERS frame: the serve goroutine is held at the
+    capture of each request's HEADERS until some handler has computed that request's fingerprint (or 300 ms); expected strings by TLC"""
+    import c06
+    orders = ['masp', 'mpas', 'mspa', 'pmsa', 'samp', 'amps']
+    scs, pres, key = [], [], []
+    for i in range(6):
+        settings = [[[3, 100], [4, 65536]], [[1, 4096], [2, 0], [4, 131072]], [], [[4, 6291456], [6, 262144]]][i % 4]
+        wu = [0, 15663105, 12517377][i % 3]
+        reqs, prios = [], []
+        for k in range(3):
+            sid = 1 + 2 * k
+            pre = [[11 + 2 * k, 0, 0, 40 + k]] if (i + k) % 3 == 0 else []
+            hp = [k % 2, 0 if k == 0 else sid - 2, 100 + 7 * i + k] if (i + k) % 2 == 0 else []
+            for q in pre:
+                prios.append([q[0], q[1], q[2], q[3]])
+            if hp:
+                prios.append([sid, hp[0], hp[1], hp[2]])
+            order = orders[(i + 2 * k) % len(orders)]
+            reqs.append({'order': order, 'prio': hp, 'prio_pre': pre})
+            pres.append({'settings': settings, 'wu': wu, 'prios': [list(x) for x in prios], 'order': list(order)})
+            key.append((i, k))
+        scs.append({'id': i, 'settings': settings, 'wu': wu, 'reqs': reqs})
+    want = c06.h2_batch(ctx, pres)
+    vin = os.path.join(ctx.scratch, 'c07_own_in.json')
+    vout = os.path.join(ctx.scratch, 'c07_own_out.json')
+    vf.write_graph(scs, vin)
+    ctx.run_driver(drv, ['own', vin, vout], timeout=300)
+    obs = {o['id']: o for o in vf.read_json(vout)}
+    n = 0
+    for j, (i, k) in enumerate(key):
+        o = obs[i]
+        if o.get('err'):
+            raise vf.Inconclusive('own-headers scenario %d: %s' % (i, o['err']))
+        got = o['fp'][k] if k < len(o['fp']) else None
+        n += 1
+        if got != want[j]:
+            ctx.violation({'check': 'C07', 'kind': 'fingerprint_before_own_headers', 'request': k + 1},
+                          'connection %d, request %d (pseudo-header order %s, priority %s): the serve goroutine was held for %s ms before recording the request\'s HEADERS frame%s; '
+                          'the request was given %r, the history including its own HEADERS frame is %r'
+                          % (i, k + 1, scs[i]['reqs'][k]['order'], scs[i]['reqs'][k]['prio'], o['held_ms'][k], ' and a handler finished its fingerprint meanwhile' if o['early'][k] else '', got, want[j]),
+                          {'scenario': scs[i], 'observed': o, 'expected': want[j]})
+    return n
+
+
 def run(ctx):
     dump = os.path.join(ctx.scratch, 'c07states')
     ctx.tlc('H2FPConc', 'MC_C07_locked.cfg', dump=dump, label='locked: Consistent + Exclusion, all interleavings')
@@ -78,6 +123,7 @@ def run(ctx):
                               'request 2 (%s, parked request 1 at marshal.%s): forwarded with %r; snapshots from its own HEADERS on: %r' % (sc['later'], sc['park'], fp2, allowed2), rep)
         if len(samples) < 4 and sc['id'] % 9 == 0:
             samples.append({'schedule': sc, 'request1_forwarded_with': fp1, 'snapshots_by_TLC': allowed1})
+    own_n = own_headers(ctx, drv)
     # corroboration with the race detector
     race = ctx.build_driver('c07driver', race=True)
     sout = os.path.join(ctx.scratch, 'c07_stress.json')
@@ -93,7 +139,7 @@ def run(ctx):
     elif not os.path.exists(sout):
         raise vf.Inconclusive('stress run failed: %s' % vf.tail(p.stderr, 20))
     cov = {'traces_validated_against_impl': n, 'samples': samples or [{'schedule': scheds[0]}],
-           'gated_schedules': len(scheds), 'schedules_with_mutual_exclusion_observed': mutual,
+           'gated_schedules': len(scheds), 'own_headers_requests': own_n, 'schedules_with_mutual_exclusion_observed': mutual,
            'race_detector_reports_on_captured_data': races, 'race_detector_reports_elsewhere (not this property)': other_races, 'stress_requests': vf.read_json(sout).get('requests') if os.path.exists(sout) else 0,
            'rule': 'one schedule per (park point of the reader in Marshal) x (later frame sequence) [x serve goroutine parked between the two writes of a HEADERS frame]; '
                    'the forwarded fingerprint must be in the set of snapshots TLC computed for that frame sequence'}
